@@ -127,7 +127,7 @@ def command_class(name):
     return getattr(importlib.import_module("mpilot.libraries.eems." + lib), name)
 
 
-def run_impl(case, copy_inputs=True, strict=False, plain=False, derived=None):
+def run_impl(case, copy_inputs=True, strict=False, plain=False, derived=None, reuse=None):
     """Runs the real `execute`.  Returns a dict:
        {"status": "ok", "result": array, "vis": ..., "producers": [...]} or
        {"status": "err", "kind": "mp"|"raw", "cls": ..., "ref": "cmd"|"none"|"arg:<name>"|"line:<n>"}
@@ -147,10 +147,14 @@ def run_impl(case, copy_inputs=True, strict=False, plain=False, derived=None):
     def _as_plain(i):
         return plain is True or (plain == "first" and i == first[id(case.inputs[0])])
     handed = {i: (numpy.array(numpy.ma.getdata(copies[i])) if _as_plain(i) else copies[i]) for i in copies}
-    if derived is None:
+    if reuse is not None and reuse:
+        uniq = reuse                    # the producer commands of an earlier call (same array objects, possibly edited in place since)
+    elif derived is None:
         uniq = {i: Producer(handed[i], "I%d" % i, fuzzy_in) for i in copies}
     else:
         uniq = {i: derived_producer(derived, handed[i], "I%d" % i) for i in copies}
+    if reuse is not None and not reuse:
+        reuse.update(uniq)
     prods = [uniq[first[id(a)]] for a in case.inputs]
     kwargs = dict(case.params)
     if how == "one":
@@ -1233,6 +1237,33 @@ def run_stream(ctx, model, cases, stream, tol=common.TOL, on_result=None, rerun=
                 beyond = [v for v in (out8["vis"][3] or []) if v is not None and not (-1 <= v <= 1)] if out8["status"] == "ok" and c.cmd in FUZZY_PRODUCERS else []
                 ctx.fail("%s: with its inputs produced by plug-in commands derived from the built-in %s the outcome differs (%s)%s" % (
                     c.cmd, base, d, "; the fuzzy result holds %r, outside [-1, 1]" % beyond[:3] if beyond else ""), dict(c.describe(), producers_derived_from=base))
+        if rerun and out["status"] == "ok" and c.inputs and c.inputs[0].size >= 2 and ctx.__dict__.setdefault("_edited_done", {}).get(c.cmd, 0) < 3:
+            # edited-field twin (three times per command and check): a field is converted, then corrected IN PLACE by its owner (cells re-measured, one more
+            # cell set to missing - the producer command and its array object stay the same), then converted again by a new command: the second conversion
+            # is the mapping of the field as it is NOW (nothing remembered with the field - statistics, shapes, masks - may outlive its contents)
+            ctx._edited_done[c.cmd] = ctx._edited_done.get(c.cmd, 0) + 1
+            first_ = {}
+            arrs = [first_.setdefault(id(a), a.copy() if isinstance(a, numpy.ma.MaskedArray) else numpy.ma.array(a)) for a in c.inputs]
+            ec = Case(c.cmd, c.params, arrs)
+            store = {}
+            prime = run_impl(ec, copy_inputs=False, reuse=store)
+            if prime["status"] == "ok" and _same(out, prime) is None:
+                for a in {id(x): x for x in arrs}.values():
+                    dta, msk = numpy.ma.getdata(a), numpy.ma.getmaskarray(a).copy()
+                    new_d = numpy.roll(dta.ravel(), 1).reshape(dta.shape)
+                    new_m = numpy.roll(msk.ravel(), 1).reshape(msk.shape)
+                    if not new_m.all() and new_m.size > 2:
+                        new_m.ravel()[int(numpy.flatnonzero(~new_m.ravel())[0])] = True      # one more cell missing
+                    dta[...] = new_d
+                    a.mask = new_m
+                fresh = run_impl(Case(c.cmd, c.params, [x.copy() for x in arrs] if len({id(x) for x in arrs}) == len(arrs) else arrs), copy_inputs=True)
+                again = run_impl(ec, copy_inputs=False, reuse=store)
+                ctx.count("edited_field_twins")
+                d = _same(fresh, again)
+                if d:
+                    ctx.fail("%s: a field was converted, then edited in place by its owner (cells shifted by one, one more cell missing), then converted again through the same "
+                             "producer command: the second result is not the mapping of the field as it is now (%s) - something remembered from the first conversion was used" % (c.cmd, d),
+                             dict(c.describe(), edited_inputs=[common.describe_arr(x) if hasattr(common, "describe_arr") else repr(x)[:200] for x in arrs]))
         if payload and out["status"] == "ok" and any(a.dtype.kind == "f" and numpy.ma.getmaskarray(a).any() for a in c.inputs) and ctx.rng.random() < 0.6:
             # what lies beneath a missing cell may be anything, NaN and infinities included (what masked_invalid or a reader leaves behind)
             ins = []
